@@ -71,6 +71,12 @@ def leg_b(cfgs, schedules, seed, findings, counters):
     for cfg in cfgs:
         mab, _ = fitted_bandit(cfg, rnd)
         imp = mab._imp
+        try:        # the chunk-level entry point is internal: if it is gone or changed, leg C still decides
+            probe = np.asarray([[0.0] * cfg.dims], dtype=float)
+            copy.deepcopy(imp)._predict_contexts(probe, False, np.asarray([1]), 0)
+        except Exception:  # noqa
+            counters["projection_unavailable"] = counters.get("projection_unavailable", 0) + 1
+            continue
         for m in sorted({s["m"] for s in schedules}):
             rows = np.asarray([[rnd.randrange(cfg.grid) for _ in range(cfg.dims)] for _ in range(m)], dtype=float)
             seeds = copy.deepcopy(mab._rng).randint(INT32_MAX, size=m)
